@@ -345,7 +345,35 @@ Proof.
 Qed.
 
 (* ---------------------------------------------------------------------------------------------- *)
-(** * splineutil.c's bspline is the right-continuous Cox–de Boor function (0/0 := 0) on non-decreasing knots *)
+(** * splineutil.c's bspline (guarded since fix 33ef56f) IS the right-continuous Cox–de Boor function with the
+      convention that a term with a vanishing denominator is dropped — for every knot sequence whatsoever: the C guard
+      [knots[i+n] != knots[i]] is [wdiv]'s test [t_{i+n} - t_i = 0], and (a*B)/d = (a/d)*B. No monotonicity, no index
+      bounds, nothing about the numerators is needed any more. *)
+Lemma eqbK_sub (p q : K) : eqbK (sub p q) zero = eqbK p q.
+Proof.
+  destruct (eqbK p q) eqn:E.
+  - apply (eqbK_true F) in E. subst q. apply (eqbK_true F). ring.
+  - apply (eqbK_false F). intro Z0. apply (sub_zero_eq F) in Z0. subst q.
+    rewrite (proj2 (eqbK_true F p p) eq_refl) in E. discriminate.
+Qed.
+Lemma guarded_term (a B p q : K) :
+  (if eqbK p q then zero else div (mul a B) (sub p q)) = mul (wdiv a (sub p q)) B.
+Proof.
+  unfold wdiv. rewrite eqbK_sub. destruct (eqbK p q) eqn:E; [ring|].
+  assert (sub p q <> zero) as NZ.
+  { intro Z0. apply (sub_zero_eq F) in Z0. subst q. rewrite (proj2 (eqbK_true F p p) eq_refl) in E. discriminate. }
+  field. exact NZ.
+Qed.
+Lemma bspline_guarded_Bfun (kn : Z -> K) (x : K) : forall n i, bspline_guarded kn n x i = Bfun kn true n i x.
+Proof.
+  induction n as [|n IH]; intro i.
+  - reflexivity.
+  - cbn [bspline_guarded Bfun]. rewrite !IH. rewrite !guarded_term. reflexivity.
+Qed.
+
+(** * remark, kept from before the fix: the UNGUARDED recursion (src/core/bspline.cpp's bspline = EvalModel.bspline, which
+      splineutil.c's function used to be) equals the same function over an exact ordered field on non-decreasing knots —
+      there 0/0 is [0 * inv 0 = 0] because a degenerate sub-spline vanishes. In binary64 it is NaN; that was finding D23. *)
 Section Basis.
 Variable kn : Z -> K.
 Variable nknots : Z.
@@ -396,20 +424,19 @@ Lemma wfd_nsplines (d : @dimn A) : wfd d -> nsplines d = Z.to_nat (d_naxes d) /\
 Proof. intros [W1 [W2 _]]. unfold nsplines. rewrite W2. split; [reflexivity | lia]. Qed.
 
 Lemma mget_basis (d : @dimn A) (xs : list K) r k : r < length xs -> k < nsplines d ->
-  mget (basis_matrix d xs) r k = bspline (d_kn d) (d_order d) (nth r xs zero) (Z.of_nat k).
+  mget (basis_matrix d xs) r k = bspline_guarded (d_kn d) (d_order d) (nth r xs zero) (Z.of_nat k).
 Proof.
   intros Hr Hk. unfold mget, basis_matrix.
-  set (f := fun x => map (fun col => bspline (d_kn d) (d_order d) x (Z.of_nat col)) (seq 0 (nsplines d))).
+  set (f := fun x => map (fun col => bspline_guarded (d_kn d) (d_order d) x (Z.of_nat col)) (seq 0 (nsplines d))).
   rewrite (nth_indep (map f xs) [] (f zero)) by (rewrite map_length; exact Hr). rewrite map_nth. unfold f.
-  set (g := fun col => bspline (d_kn d) (d_order d) (nth r xs zero) (Z.of_nat col)).
+  set (g := fun col => bspline_guarded (d_kn d) (d_order d) (nth r xs zero) (Z.of_nat col)).
   rewrite (nth_indep (map g (seq 0 (nsplines d))) zero (g 0)) by (rewrite map_length, seq_length; exact Hk).
   rewrite map_nth, seq_nth by exact Hk. reflexivity.
 Qed.
 Lemma basis_entry (d : @dimn A) (xs : list K) r k : wfd d -> r < length xs -> k < nsplines d ->
   mget (basis_matrix d xs) r k = Bfun (d_kn d) true (d_order d) (Z.of_nat k) (nth r xs zero).
 Proof.
-  intros W Hr Hk. rewrite mget_basis by assumption. destruct W as [W1 [W2 [_ W4]]].
-  apply (bspline_Bfun (d_kn d) (d_nknots d)); [exact W4 | lia |]. unfold nsplines in Hk. lia.
+  intros _ Hr Hk. rewrite mget_basis by assumption. apply bspline_guarded_Bfun.
 Qed.
 
 (* ---------------------------------------------------------------------------------------------- *)
